@@ -57,31 +57,9 @@ def container_root(prog, fn, t):
     return best
 
 
-def run(c, prog):
-    g = flow.CallGraph(prog)
-    roots = [f.path for f in prog.find_fns(SER_ROOTS)]
-    if len(roots) < 4:
-        raise core.AnchorMissing(f"serializer entry points: {roots}")
+def run_sanitisers(c, prog):
     R = "C07.hash"
-    c.rule(R, "every iteration over a hash-ordered container in code reachable from the two serializers is enumerated; each site is in the confirmed table, and sites whose effects are order-sensitive are followed by a dominating sort before the data reaches the output")
-    reach, sites = iter_sites(prog, g, roots)
-    c.analysed["serializer_reachable_functions"] = len(reach)
-    seen = set()
-    for path, bb, cal, t in sites:
-        fn = prog.fns[path]
-        owner = fn.d.get("root") if fn.dk == "Closure" else path
-        cr = container_root(prog, fn, t)
-        key = (owner, cr)
-        inst = f"{owner}|{cr}"
-        if key in SITES:
-            seen.add(key)
-            c.ok(R, inst)
-        else:
-            c.violation(R, f"unclassified|{owner}|{cr}|{core.short(cal)}", f"{owner} iterates the hash-ordered container `{cr}` ({core.short(cal)}) on a path reachable from a serializer; its iteration order depends on hash seeds / insertion history and it is not a confirmed, sanitised site — output bytes may differ between runs or constructions of the same tree", t.get("sp", ""), instance=inst)
-    for key in SITES:
-        if key not in seen:
-            c.violation(R, f"anchor|{key[0]}|{key[1]}", f"confirmed hash-iteration site {key} not found (table out of date)", "")
-    c.floor(R, len(sites), 3, "hash iteration sites reachable from the serializers")
+    c.rule(R, "order-sensitive results of hash iteration are sanitised: the XML property buffer is sorted by property name before it is drained; binary shared strings are sorted by content hash after the traversal and before SSTR indices are assigned")
     # sanitiser 1: XML property buffer sorted between extend and drain
     fn = prog.fn("rbx_xml::serializer::serialize_instance")
     cfg = D.CFG(fn)
@@ -151,6 +129,35 @@ def run(c, prog):
         c.ok(R, "sanitiser:shared-strings-sorted-before-ids")
     else:
         c.violation(R, "sanitiser|sstr-sort", f"binary serializer: shared strings discovered in hash-iteration order must be sorted (by content hash) after the traversal and before SSTR indices are assigned from that sorted order (sort after traversal={ok_sort}, ids from enumerate(sorted)={assign_ok}, ids assigned elsewhere={other_ids}, re-sorted elsewhere={stray_sorts}): otherwise chunk order or the indices stored in PROP chunks depend on property-map iteration order", fn.sp, instance="sanitiser:shared-strings-sorted-before-ids")
+
+
+
+def run(c, prog):
+    g = flow.CallGraph(prog)
+    roots = [f.path for f in prog.find_fns(SER_ROOTS)]
+    if len(roots) < 4:
+        raise core.AnchorMissing(f"serializer entry points: {roots}")
+    R = "C07.hash"
+    c.rule(R, "every iteration over a hash-ordered container in code reachable from the two serializers is enumerated; each site is in the confirmed table, and sites whose effects are order-sensitive are followed by a dominating sort before the data reaches the output")
+    reach, sites = iter_sites(prog, g, roots)
+    c.analysed["serializer_reachable_functions"] = len(reach)
+    seen = set()
+    for path, bb, cal, t in sites:
+        fn = prog.fns[path]
+        owner = fn.d.get("root") if fn.dk == "Closure" else path
+        cr = container_root(prog, fn, t)
+        key = (owner, cr)
+        inst = f"{owner}|{cr}"
+        if key in SITES:
+            seen.add(key)
+            c.ok(R, inst)
+        else:
+            c.violation(R, f"unclassified|{owner}|{cr}|{core.short(cal)}", f"{owner} iterates the hash-ordered container `{cr}` ({core.short(cal)}) on a path reachable from a serializer; its iteration order depends on hash seeds / insertion history and it is not a confirmed, sanitised site — output bytes may differ between runs or constructions of the same tree", t.get("sp", ""), instance=inst)
+    for key in SITES:
+        if key not in seen:
+            c.violation(R, f"anchor|{key[0]}|{key[1]}", f"confirmed hash-iteration site {key} not found (table out of date)", "")
+    c.floor(R, len(sites), 3, "hash iteration sites reachable from the serializers")
+    run_sanitisers(c, prog)
 
     R = "C07.ord"
     c.rule(R, "containers whose iteration order reaches the output are ordered types (BTreeMap / Vec), so a change to a hash container shows up as a new unclassified hash iteration and here")
